@@ -1,5 +1,5 @@
 import ShootVerif.Drive.Loop
 import ShootVerif.Drive.Enum
 open ShootVerif.Drive
-def main : IO Unit := runDriver [("c04", c04Case), ("c12", c12Case), ("c12t", c12tCase), ("c12v", c12vCase), ("c12i", c12iCase),
+def main : IO Unit := runDriver [("c04", c04Case), ("c04a", c04aCase), ("c12", c12Case), ("c12t", c12tCase), ("c12v", c12vCase), ("c12i", c12iCase),
   ("c14", c14Case), ("c14raw", c14rawCase), ("c01enum", c01enumCase)]
